@@ -38,11 +38,14 @@ Record edge := mkEdge { e_id : id; e_label : elabel; e_att : list node }.
 Definition edge_eqb (a b : edge) : bool :=
   id_eqb (e_id a) (e_id b) && elabel_eqb (e_label a) (e_label b) && list_eqb node_eqb (e_att a) (e_att b).
 
-(** [Graph]: [_nodes], [_edges] (dicts in insertion order), [_ext], and the edge-label table
-    [_edge_labels] (name -> label; never shrunk).  The node-label table is not modelled. *)
-Record graph := mkGraph { g_nodes : list node; g_edges : list edge; g_ext : list node; g_elabs : list elabel }.
+(** [Graph]: [_nodes], [_edges] (dicts in insertion order), [_ext], the edge-label table
+    [_edge_labels] (name -> label; never shrunk) and the node-label table [_node_labels]
+    (name -> NodeLabel(name): a [NodeLabel] is its name, so the dict is the list of its keys in
+    insertion order; never shrunk). *)
+Record graph := mkGraph { g_nodes : list node; g_edges : list edge; g_ext : list node; g_elabs : list elabel;
+                          g_nlabs : list nat }.
 
-Inductive err := ValueErr | KeyErr | TypeErr | AssertErr | OtherErr.
+Inductive err := ValueErr | KeyErr | TypeErr | AssertErr | OtherErr | RuntimeErr.
 Inductive result (A : Type) := Ok (a : A) | Err (e : err).
 Arguments Ok {A}. Arguments Err {A}.
 
@@ -69,10 +72,16 @@ Definition has_node_id (g : graph) (i : id) : bool := existsb (fun n => id_eqb (
 Definition has_edge_id (g : graph) (i : id) : bool := existsb (fun e => id_eqb (e_id e) i) (g_edges g).
 
 Definition remove_edge_id (g : graph) (i : id) : graph :=
-  mkGraph (g_nodes g) (filter (fun e => negb (id_eqb (e_id e) i)) (g_edges g)) (g_ext g) (g_elabs g).
+  mkGraph (g_nodes g) (filter (fun e => negb (id_eqb (e_id e) i)) (g_edges g)) (g_ext g) (g_elabs g) (g_nlabs g).
 
+(** [add_node_label]: [self._node_labels[label.name] = label] (no test: a [NodeLabel] is
+    determined by its name; assigning to a present key keeps its position) *)
+Definition add_nlab (tbl : list nat) (l : nat) : list nat := if memb Nat.eqb tbl l then tbl else tbl ++ [l].
+Definition add_nlabs (tbl : list nat) (ls : list nat) : list nat := fold_left add_nlab ls tbl.
+
+(** [add_node] of a node whose id is new: [add_node_label(node.label); _nodes[node.id] = node] *)
 Definition push_node (g : graph) (n : node) : graph :=
-  mkGraph (g_nodes g ++ [n]) (g_edges g) (g_ext g) (g_elabs g).
+  mkGraph (g_nodes g ++ [n]) (g_edges g) (g_ext g) (g_elabs g) (add_nlab (g_nlabs g) (n_label n)).
 
 Fixpoint find_label (tbl : list elabel) (nm : nat) : option elabel :=
   match tbl with [] => None | l :: tbl => if Nat.eqb (l_name l) nm then Some l else find_label tbl nm end.
@@ -113,10 +122,11 @@ Definition add_edge (g : graph) (e : edge) : graph * option err :=
   else match check_new_nodes g (e_att e) [] with
        | None => (g, Some ValueErr)
        | Some news =>
-         let g1 := mkGraph (g_nodes g ++ news) (g_edges g) (g_ext g) (g_elabs g) in
+         let g1 := mkGraph (g_nodes g ++ news) (g_edges g) (g_ext g) (g_elabs g)
+                           (add_nlabs (g_nlabs g) (map n_label news)) in
          match add_edge_label (g_elabs g1) (e_label e) with
          | Err k => (g1, Some k)
-         | Ok tbl => (mkGraph (g_nodes g1) (g_edges g1 ++ [e]) (g_ext g1) tbl, None)
+         | Ok tbl => (mkGraph (g_nodes g1) (g_edges g1 ++ [e]) (g_ext g1) tbl (g_nlabs g1), None)
          end
        end.
 
@@ -184,11 +194,60 @@ Definition replace_edge_model (g : graph) (nx : nat) (e : edge) (r : graph)
     | (g3, nx3, Err k) => (g3, nx3, Err k)
     end.
 
+(** * replace_edge(g, e, g): the replacement IS the host object (aliasing).
+    Same statements, one heap object: [graph.remove_edge(edge)] also removes the edge from the
+    replacement; [replacement.ext] is the host's; the two [for] loops iterate over live views of
+    the dicts that their bodies grow ([graph.add_node] / [graph.add_edge]), so the [next()] that
+    follows the first insertion raises [RuntimeError: dictionary changed size during iteration]
+    (CPython tests the size on every [next()], also on the one that would end the loop).
+    Nodes already in [node_map] are skipped without insertion, so the iteration goes on. *)
+Fixpoint alias_copy_nodes (g : graph) (nx : nat) (nm : nmap) (rnodes : list node)
+  : graph * nat * nmap * option err :=
+  match rnodes with
+  | [] => (g, nx, nm, None)
+  | rn :: rnodes =>
+    if amem node_eqb nm rn then alias_copy_nodes g nx nm rnodes
+    else let gn := mkNode (Fresh nx) (n_label rn) in
+         (push_node g gn, S nx, aset node_eqb nm rn gn, Some RuntimeErr)
+  end.
+
+Definition alias_copy_edges (nm : nmap) (g : graph) (nx : nat) : graph * nat * result emap :=
+  match g_edges g with
+  | [] => (g, nx, Ok [])
+  | re :: _ =>
+    match map_nodes nm (e_att re) with
+    | None => (g, nx, Err KeyErr)
+    | Some gns =>
+      if negb (list_eqb Nat.eqb (l_type (e_label re)) (map n_label gns)) then (g, S nx, Err ValueErr)
+      else
+        let ge := mkEdge (Fresh nx) (e_label re) gns in
+        match add_edge g ge with
+        | (g', Some k) => (g', S nx, Err k)
+        | (g', None) => (g', S nx, Err RuntimeErr)
+        end
+    end
+  end.
+
+Definition replace_edge_alias_model (g : graph) (nx : nat) (e : edge) : graph * nat * result (nmap * emap) :=
+  if negb (list_eqb Nat.eqb (l_type (e_label e)) (gtype g)) then (g, nx, Err ValueErr)
+  else if negb (has_edge_id g (e_id e)) then (g, nx, Err ValueErr)
+  else
+    let g1 := remove_edge_id g (e_id e) in
+    let nm0 := ext_map (g_ext g1) (e_att e) in
+    match alias_copy_nodes g1 nx nm0 (g_nodes g1) with
+    | (g2, nx2, nm, Some k) => (g2, nx2, Err k)
+    | (g2, nx2, nm, None) =>
+      match alias_copy_edges nm g2 nx2 with
+      | (g3, nx3, Ok em) => (g3, nx3, Ok (nm, em))
+      | (g3, nx3, Err k) => (g3, nx3, Err k)
+      end
+    end.
+
 (** * start_graph *)
 Fixpoint fresh_nodes (nx : nat) (ls : list nat) : list node :=
   match ls with [] => [] | l :: ls => mkNode (Fresh nx) l :: fresh_nodes (S nx) ls end.
 
-Definition empty_graph : graph := mkGraph [] [] [] [].
+Definition empty_graph : graph := mkGraph [] [] [] [] [].
 
 (** [e = Edge(s, [Node(l) for l in s.type]); ret.add_edge(e)] *)
 Definition start_graph_model (s : elabel) (nx : nat) : graph * nat * edge :=
@@ -530,7 +589,9 @@ Definition replace_ok (host : graph) (e : edge) (repl : graph) (res : graph) (nm
   && nodupb id_eqb (map e_id (g_edges res))
   (* label table only grows, and covers the new edges *)
   && is_prefix elabel_eqb (g_elabs host) (g_elabs res)
-  && forallb (fun rg => memb elabel_eqb (g_elabs res) (e_label (snd rg))) em.
+  && forallb (fun rg => memb elabel_eqb (g_elabs res) (e_label (snd rg))) em
+  (* node-label table: the labels of the added nodes are registered, in order, nothing else *)
+  && list_eqb Nat.eqb (g_nlabs res) (add_nlabs (g_nlabs host) (map (fun rg => n_label (snd rg)) nonext)).
 
 (** [start_graph]: one edge labelled by the start symbol attached to pairwise distinct nodes of
     the right labels, nothing else, no external nodes *)
@@ -540,6 +601,8 @@ Definition start_ok (s : elabel) (g : graph) : bool :=
            && list_eqb Nat.eqb (map n_label (g_nodes g)) (l_type s)
            && nodupb id_eqb (map n_id (g_nodes g))
            && match g_ext g with [] => true | _ => false end
+           && list_eqb elabel_eqb (g_elabs g) [s]
+           && list_eqb Nat.eqb (g_nlabs g) (add_nlabs [] (l_type s))
   | _ => false
   end.
 
